@@ -365,8 +365,9 @@ impl DrawExecutor {
     fn draw_ellipse(&mut self, xm: i32, ym: i32, a: i32, b: i32) {
         let mut x = -a;
         let mut y = 0; /* II. quadrant from bottom left to top right */
-        let e2 = b * b;
-        let mut err = x * (2 * e2 + x) + e2; /* error of 1.step */
+        // the error terms grow like a * b * b: i64 (the callers keep the radii within 16 bits)
+        let (a2, b2) = (i64::from(a) * i64::from(a), i64::from(b) * i64::from(b));
+        let mut err = i64::from(x) * (2 * b2 + i64::from(x)) + b2; /* error of 1.step */
         let color = self.line_color;
 
         while x <= 0 {
@@ -375,15 +376,15 @@ impl DrawExecutor {
             self.set_pixel(xm + x, ym - y, color); /* III. Quadrant */
             self.set_pixel(xm - x, ym - y, color); /*  IV. Quadrant */
             let e2 = 2 * err;
-            if e2 >= (x * 2 + 1) * b * b {
+            if e2 >= i64::from(x * 2 + 1) * b2 {
                 /* e_xy+e_x > 0 */
                 x += 1;
-                err += (x * 2 + 1) * b * b;
+                err += i64::from(x * 2 + 1) * b2;
             }
-            if e2 <= (y * 2 + 1) * a * a {
+            if e2 <= i64::from(y * 2 + 1) * a2 {
                 /* e_xy+e_y < 0 */
                 y += 1;
-                err += (y * 2 + 1) * a * a;
+                err += i64::from(y * 2 + 1) * a2;
             }
         }
 
@@ -398,23 +399,24 @@ impl DrawExecutor {
     fn fill_ellipse(&mut self, xm: i32, ym: i32, a: i32, b: i32) {
         let mut x = -a;
         let mut y = 0; /* II. quadrant from bottom left to top right */
-        let e2 = b * b;
-        let mut err = x * (2 * e2 + x) + e2; /* error of 1.step */
+        // the error terms grow like a * b * b: i64 (the callers keep the radii within 16 bits)
+        let (a2, b2) = (i64::from(a) * i64::from(a), i64::from(b) * i64::from(b));
+        let mut err = i64::from(x) * (2 * b2 + i64::from(x)) + b2; /* error of 1.step */
         let color = self.line_color;
 
         while x <= 0 {
             self.fill_rect(xm - x, ym + y, xm + x, ym + y); /*  II. Quadrant */
             self.fill_rect(xm + x, ym - y, xm - x, ym - y); /*  IV. Quadrant */
             let e2 = 2 * err;
-            if e2 >= (x * 2 + 1) * b * b {
+            if e2 >= i64::from(x * 2 + 1) * b2 {
                 /* e_xy+e_x > 0 */
                 x += 1;
-                err += (x * 2 + 1) * b * b;
+                err += i64::from(x * 2 + 1) * b2;
             }
-            if e2 <= (y * 2 + 1) * a * a {
+            if e2 <= i64::from(y * 2 + 1) * a2 {
                 /* e_xy+e_y < 0 */
                 y += 1;
-                err += (y * 2 + 1) * a * a;
+                err += i64::from(y * 2 + 1) * a2;
             }
         }
 
@@ -1021,6 +1023,10 @@ impl CommandExecutor for DrawExecutor {
                 if parameters.len() != 3 {
                     return Err(anyhow::anyhow!("AttributeForFills command requires 3 arguments"));
                 }
+                // centre and radius are 16 bit VDI coordinates: that bounds the ellipse arithmetic and its loops
+                if parameters.iter().any(|p| !(-32768..=32767).contains(p)) {
+                    return Err(anyhow::anyhow!("Circle parameter out of range: {parameters:?}"));
+                }
                 self.fill_ellipse(parameters[0], parameters[1], parameters[2], parameters[2]);
                 if self.draw_border {
                     self.draw_circle(parameters[0], parameters[1], parameters[2]);
@@ -1031,6 +1037,10 @@ impl CommandExecutor for DrawExecutor {
             IgsCommands::Ellipse => {
                 if parameters.len() != 4 {
                     return Err(anyhow::anyhow!("Ellipse command requires 4 arguments"));
+                }
+                // centre and radii are 16 bit VDI coordinates: that bounds the ellipse arithmetic and its loops
+                if parameters.iter().any(|p| !(-32768..=32767).contains(p)) {
+                    return Err(anyhow::anyhow!("Ellipse parameter out of range: {parameters:?}"));
                 }
                 self.fill_ellipse(parameters[0], parameters[1], parameters[2], parameters[3]);
                 if self.draw_border {
